@@ -57,6 +57,17 @@ def mutate_jwk(case, rnd, kind=None):
         if not (kty == "EC" and m == "y"): return None
         size = R.EC_CURVES[j["crv"]][1]
         j["y"] = R.b64e((EC_P[j["crv"]] - int.from_bytes(R.b64d(j["y"]), "big")).to_bytes(size, "big")).decode()
+    elif mut in ("drop_primes", "drop_with_pair", "only_this_left"):
+        crt = ("p", "q", "dp", "dq", "qi")
+        if kty != "RSA" or not case["private"] or m not in crt: return None
+        if mut == "drop_primes":
+            if m in ("p", "q"): return None           # (seen from a member that stays)
+            gone = ("p", "q")
+        elif mut == "drop_with_pair":
+            gone = {"p": ("p", "dp"), "q": ("q", "dq"), "dp": ("dp", "p"), "dq": ("dq", "q"), "qi": ("qi", "p")}[m]
+        else:
+            gone = tuple(x for x in crt if x != m)
+        for g in gone: j.pop(g, None)
     elif mut == "unknown_value":
         if m == "use": j["use"] = "both"
         elif m == "key_ops": j["key_ops"] = ["sign", "explode"]
@@ -69,7 +80,9 @@ def import_case(case):
     from joserfc.jwk import JWKRegistry
     rnd = random.Random(json.dumps(case, sort_keys=True))
     outs = []
-    for kind, alone in [(k, a) for k in KINDS[case["kty"]] for a in ((False, True) if case["member"] in ("use", "key_ops") else (False,))]:
+    PARAM_MEMBERS = ("use", "key_ops", "alg", "kid", "x5c", "x5u")
+    for kind, alone, via_params in [(k, a, v) for k in KINDS[case["kty"]] for a in ((False, True) if case["member"] in ("use", "key_ops") else (False,))
+                                    for v in ((False, True) if case["member"] in PARAM_MEMBERS and case["mutation"] != "delete" else (False,))]:
         j = mutate_jwk(case, rnd, kind)          # every curve of the type
         if j is None:
             continue
@@ -78,9 +91,16 @@ def import_case(case):
             if case["mutation"] == "contradict":
                 continue
         try:
-            k = JWKRegistry.import_key(json.loads(json.dumps(j)))
+            jj = json.loads(json.dumps(j))
+            if via_params:
+                # the same JWK with the member under test handed over through the `parameters` argument instead
+                if case["member"] not in jj:
+                    continue
+                k = JWKRegistry.import_key(jj, parameters={case["member"]: jj.pop(case["member"])})
+            else:
+                k = JWKRegistry.import_key(jj)
             k.as_dict()
-            outs.append("accept:" + kind)
+            outs.append("accept:" + kind + (" (member given through parameters=)" if via_params else ""))
         except ValueError:
             outs.append("refuse")
         except BaseException as e:  # noqa
